@@ -22,9 +22,9 @@ CONDITIONS = (
              what="two typed lines (incl. the same name twice)", bound="50 x 50 pool lines")
     + shards("broken", "c01.py", "h_broken", {"container": [0, 1, 3]}, timeout=400, thorough_timeout=2000,
              what="a malformed line next to a good one: dropped+stable in VEVENT, ValueError elsewhere", bound="12 malformed x 10 (thorough 50) pool lines")
-    + shards("raw", "c01.py", "h_raw", {"name": [0, 2, 4], "where": [0, 1, 2]}, timeout=600,
+    + shards("raw", "c01.py", "h_raw", {"name": [0, 2, 4], "where": [0, 1, 2]}, timeout=600, thorough_timeout=4000,
              what="raw delimiter-alphabet string as value / unquoted / quoted parameter value: stable", bound="<= 2 (thorough 3) chars over 13-char alphabet")
-    + shards("raw", "c01.py", "h_raw", {"name": [1, 3, 5], "where": [0, 1, 2]}, timeout=600, tiers=("thorough",),
+    + shards("raw", "c01.py", "h_raw", {"name": [1, 3, 5], "where": [0, 1, 2]}, timeout=4000, tiers=("thorough",),
              what="raw delimiter-alphabet string as value / unquoted / quoted parameter value: stable", bound="<= 3 chars over 13-char alphabet")
     + [X("skeleton", "c01.py", "h_skeleton", timeout=600, params={"m": m, "k0": k0},
          what="BEGIN/END/property line-kind vector: every accepted text is stable (single and multiple=True)",
